@@ -286,6 +286,7 @@ class Repo:
     def __init__(self, root=None, overrides=None):
         self.root = root or REPO
         self.overrides = overrides or {}
+        self.local_renames = []
         self.modules = {}
         self.classes = {}     # fullname -> ClassInfo
         self.functions = {}   # fullname -> FunctionInfo (all, incl. methods & nested)
@@ -319,10 +320,12 @@ class Repo:
                     tree = ast.parse(src, filename=rel)
                 except SyntaxError as exc:
                     raise AnalysisError(f'cannot parse {rel}: {exc}')
-                set_parents(tree)
                 mod = rel[:-3].replace(os.sep, '.')
                 if mod.endswith('.__init__'):
                     mod = mod[:-9]
+                from . import canon
+                self.local_renames.extend(canon.apply(tree, mod))
+                set_parents(tree)
                 m = Module(mod, path, rel, src, tree)
                 self.modules[mod] = m
                 self.files_parsed += 1
